@@ -25,7 +25,12 @@ Step(e) ==
     \/ e.op = "get"       /\ Get(e.i, e.r, e.how, PanicOK)
     \/ e.op = "get2"      /\ Get2(e.i, e.r, e.how, PanicOK)
     \/ e.op = "probes"    /\ Probes(e.g, PanicOK)
-    \/ e.op = "len"       /\ LenIs(e.n)
+    \/ e.op = "len"       /\ (IF Has(e, "empty") THEN LenEmpty(e.n, e.empty) ELSE LenIs(e.n))
+    \/ e.op = "back"      /\ Back(e.r, e.how, PanicOK)
+    \/ e.op = "clear"     /\ Clear(e.n)
+    \/ e.op = "resize"    /\ Resize(e.n, e.out)
+    \/ e.op = "maintain"  /\ Maintain(e.out)
+    \/ e.op = "swap"      /\ Swap(e.xs, e.out)
     \/ e.op = "readback"  /\ ReadBack(e.out, e.n)
     \/ e.op = "readback2" /\ ReadBack2(e.out)
     \/ e.op = "readblocks" /\ ReadBlocks(e.bs, e.nb, e.out)
